@@ -48,7 +48,6 @@ fn writer(tier: &str) -> Vec<String> {
         (16384, "1,4000,8191,8192,8193,12000,16382,16383,16384,16385"),
         (65536, "1,8192,30000,32767,65534,65535,65536"),
     ] {
-        v.push(format!("wbfs:cap={}:end=n:F=0:lens={}:budget=300000", cap, lens));
         v.push(format!("wtree:cap={}:end=n:depth={}:Fop=0:Fh=0:lens={}", cap, if thorough { 5 } else { 4 }, lens));
         v.push(format!("wtree:cap={}:end=n:depth=3:Fop=1:Fh=2:lens={}", cap, lens));
     }
@@ -104,7 +103,7 @@ fn writer(tier: &str) -> Vec<String> {
 fn holder(tier: &str) -> Vec<String> {
     let mut progs = vec!["S1.S2.GG", "S1.GI.G", "S1S2.GG", "S1.S2G", "S1.IG", "S1.S2.G", "S1.G.I", "S1G.S2G", "S1.S2"];
     if tier == "thorough" {
-        progs.extend(["S1.S2.GIG", "S1G.S2G.GI", "S1.GIG.IG", "S1S2.GI.IG", "S1.S2.S1G", "S1I.S2G.GI"]);
+        progs.extend(["S1.S2.GIG", "S1G.S2G.GI", "S1.GIG.IG", "S1S2.GI.IG", "S1.S2.S3G", "S1I.S2G.GI"]);
     }
     let mut v: Vec<String> = progs.iter().map(|p| format!("holder:prog={}", p)).collect();
     v.push(format!("holderseq:depth={}", if tier == "thorough" { 6 } else { 4 }));
